@@ -239,18 +239,16 @@ def _check_binary(ck, world, table, cls, name, fn, comp, add, homothety, identit
     required = []
     for a, x, b, y in BINARY[name]:
         required.append(frozenset({_norm((a, ('var', s if x == 'self' else o)), aliases), _norm((b, ('var', s if y == 'self' else o)), aliases)}))
+    from ..terms import predicate_alternatives, return_cases
+
     count = 0
-    for i, path in enumerate(function_paths(fn)):
-        if path.exit != 'return' or not isinstance(path.node, ast.Return):
-            continue
-        v = path.node.value
+    for fs0, rt, env, _txt, ret in return_cases(world, fn, resolver=_helper_resolver(world, table, cls, fn)):
+        v = ret.value
         if _is_not_implemented(v):
             continue
         count += 1
-        env = path_env(path)
-        rt = term(v, env)
         label = show(rt)[:70]
-        fs = {_norm(f, aliases) for f in facts(path, None, _helper_resolver(world, table, cls, fn))}
+        fs = {_norm(f, aliases) for f in fs0}
         eqs = {f[1] for f in fs if f[0] == 'eq'}
         deleg = _delegation(v, name, s, o)
         # local-variable delegation, e.g. ``result = self + (-other); return result``
@@ -270,12 +268,13 @@ def _check_binary(ck, world, table, cls, name, fn, comp, add, homothety, identit
         else:
             ck.bad('S1', fn, f'a path returns an operator ({label}) without a dominating structure check ' + ' / '.join(' == '.join(sorted(show(t) for t in r)) for r in missing)
                    + ': structurally incompatible operands yield an operator instead of an error', instance=f'returns {label}')
-        _check_order(ck, table, cls, name, fn, path, rt, s, o, fs, comp, add, homothety, identity, lazy_inv)
+        alts = [{_norm(f, aliases) for f in a} for a in predicate_alternatives(world, module_of(fn), fs0)]
+        _check_order(ck, table, cls, name, fn, None, rt, s, o, fs, comp, add, homothety, identity, lazy_inv, alts)
     return count
 
 
 def _segments(t, s, o):
-    """Decomposes an operand-list term into ordered segments ('all'|'one', 'self'|'other')."""
+    """Decomposes an operand-list term into ordered segments ('all'|'one'|'drop-last'|'drop-first', 'self'|'other')."""
     if t[0] == 'binop' and t[1] == '+':
         a, b = _segments(t[2], s, o), _segments(t[3], s, o)
         if a is None or b is None:
@@ -291,18 +290,46 @@ def _segments(t, s, o):
             else:
                 return None
         return out
+    if t[0] == 'call' and t[1] in (('var', 'list'), ('var', 'tuple')) and len(t[2]) == 1 and not t[3]:
+        return _segments(t[2][0], s, o)
     if t[0] == 'attr' and t[2] in ('operands', 'operand_leaves') and t[1] in (('var', s), ('var', o)):
         return [('all', 'self' if t[1] == ('var', s) else 'other')]
+    if t[0] == 'sub' and t[2][0] == 'slice' and t[1][0] == 'attr' and t[1][2] == 'operands' and t[1][1] in (('var', s), ('var', o)):
+        w = 'self' if t[1][1] == ('var', s) else 'other'
+        lo, hi, step = t[2][1:4]
+        if step == ('none',) and lo in (('none',), ('const', '0')) and hi == ('unop', 'neg', ('const', '1')):
+            return [('drop-last', w)]
+        if step == ('none',) and lo == ('const', '1') and hi == ('none',):
+            return [('drop-first', w)]
+        return None
     return None
 
 
-def _check_order(ck, table, cls, name, fn, path, rt, s, o, fs, comp, add, homothety, identity, lazy_inv) -> None:
+def _cancel_guard(alts, dropped, kept) -> bool:
+    """In every alternative, the dropped operand and the operand standing next to it are related by `X.operator is Y`."""
+    want = (frozenset({('attr', dropped, 'operator'), kept}), frozenset({('attr', kept, 'operator'), dropped}))
+    return bool(alts) and all(any(f[0] == 'is' and f[1] in want for f in a) for a in alts)
+
+
+def _check_order(ck, table, cls, name, fn, path, rt, s, o, fs, comp, add, homothety, identity, lazy_inv, alts=None) -> None:
     """S2 (operand order / presence) and S5 (shortcuts) on one returning path."""
+    alts = alts if alts is not None else [fs]
+    S, O = ('var', s), ('var', o)
+    reflected = name.startswith('__r')
     if rt[0] != 'call':
         if rt == ('var', o):
             # identity absorption: I @ B -> B
             ck.expect('S5', table.is_subclass(cls, identity) and name == '__matmul__', fn,
                       'identity absorption I @ B = B (structure guard checked by S1)', f'{cls.name}.{name} returns its right operand unchanged although it is not an identity', instance='returns other')
+        elif rt[0] == 'sub' and rt[2] == ('const', '0') and name in ('__matmul__', '__rmatmul__'):
+            # a single operand left after a cancellation: operands[...][0]
+            segs = _segments(rt[1], s, o)
+            if segs is None:
+                ck.incomplete('S5', fn, f'{cls.name}.{name} returns {show(rt)}: not a recognised shortcut', instance=f'{name} returns {show(rt)[:40]}')
+            else:
+                _check_drops(ck, cls, name, fn, segs, S, O, reflected, alts, single=True)
+        elif name in ('__matmul__', '__rmatmul__', '__add__', '__radd__') and rt not in (('var', s),) and rt[0] not in ('binop', 'unop'):
+            ck.incomplete('S5', fn, f'{cls.name}.{name} returns {show(rt)}: not a recognised construction or shortcut', instance=f'{name} returns {show(rt)[:40]}')
         return
     callee = rt[1]
     if callee[0] != 'var':
@@ -314,11 +341,17 @@ def _check_order(ck, table, cls, name, fn, path, rt, s, o, fs, comp, add, homoth
         if segs is None:
             ck.incomplete('S2', fn, f'operand list {show(args[0])} is not a concatenation of self/other parts', instance=name)
             return
+        if any(k.startswith('drop') for k, _ in segs):
+            if cname != comp.name:
+                ck.bad('S2', fn, f'{cls.name}.{name} drops a summand: {show(args[0])}', instance=f'{name} operands')
+            else:
+                _check_drops(ck, cls, name, fn, segs, S, O, reflected, alts, single=False)
+            return
         who = [w for _, w in segs]
         if cname == comp.name:
-            want = ['other', 'self'] if name.startswith('__r') else ['self', 'other']
+            want = ['other', 'self'] if reflected else ['self', 'other']
             ck.expect('S2', who == want, fn, f'composition operands in product order {want}',
-                      f'{cls.name}.{name} builds CompositionOperator with operand order {who}; the product {"other @ self" if name.startswith("__r") else "self @ other"} requires {want}', instance=f'{name} order')
+                      f'{cls.name}.{name} builds CompositionOperator with operand order {who}; the product {"other @ self" if reflected else "self @ other"} requires {want}', instance=f'{name} order')
         else:
             ck.expect('S2', sorted(who) == ['other', 'self'], fn, 'sum contains self-part and other-part exactly once',
                       f'{cls.name}.{name} builds AdditionOperator from parts {who}: an operand is dropped or duplicated', instance=f'{name} operands')
@@ -340,12 +373,39 @@ def _check_order(ck, table, cls, name, fn, path, rt, s, o, fs, comp, add, homoth
         st = args[1] if len(args) > 1 else None
         ok_struct = st in (('attr', ('var', s), '_in_structure'), ('IN', ('var', s)), ('OUT', ('var', s)), ('IN', ('var', o)), ('attr', ('var', o), '_in_structure'), ('OUT', ('var', o)))
         ck.expect('S5', ok_struct, fn, 'merged scalar lives on the (equal, checked) structure of the operands', f'merged scalar is built on {show(st)}', instance='scalar merge structure', nontrivial=False)
-    elif cname == identity.name and name == '__matmul__':
+    elif cname == identity.name and name in ('__matmul__', '__rmatmul__'):
         st = args[0] if args else None
-        ident = any(f[0] == 'is' for f in fs)
+        ident = bool(alts) and all(any(f[0] == 'is' for f in a) for a in alts)
         ok_struct = st is not None and st[0] in ('IN', 'OUT') and st[1] in (('var', s), ('var', o))
-        ck.expect('S5', ident and ok_struct, fn, 'A @ A.I / A.I @ A collapse to the identity on the (square) structure only under the operand-identity guard',
+        whole = True
+        if table.is_subclass(cls, comp):
+            # a chain collapses to the identity only if it consists of the cancelled operand alone
+            whole = any(f[0] == 'eq' and any(x[0] == 'call' and x[1] == ('var', 'len') and ('const', '0') in f[1] for x in f[1]) for f in fs)
+        ck.expect('S5', ident and ok_struct and whole, fn, 'A @ A.I / A.I @ A collapse to the identity on the (square) structure only under the operand-identity guard',
                   'identity shortcut without the operand-identity guard or on a foreign structure', instance='inverse shortcut')
+    elif name in ('__matmul__', '__rmatmul__', '__add__', '__radd__') and not any(c.name == cname for c in table.classes.values()):
+        ck.incomplete('S5', fn, f'{cls.name}.{name} returns {show(rt)[:80]}: not a recognised construction or shortcut', instance=f'{name} returns {cname}(...)')
+
+
+def _check_drops(ck, cls, name, fn, segs, S, O, reflected, alts, single: bool) -> None:
+    """A composition dunder that leaves out an operand of the chain: only the operand standing next to `other` in the
+    product may go, and only under an identity guard relating the two (A.I next to the very same A)."""
+    kinds = [k for k, _ in segs]
+    if len(segs) != 1 or segs[0][1] != 'self':
+        ck.incomplete('S5', fn, f'{cls.name}.{name}: operand list with a dropped operand in an unrecognised arrangement {segs}', instance=f'{name} cancellation')
+        return
+    # other @ (op0 @ ... @ opn): other stands next to op0;  (op0 @ ... @ opn) @ other: next to opn
+    need = 'drop-first' if reflected else 'drop-last'
+    idx = ('const', '0') if kinds[0] == 'drop-first' else ('unop', 'neg', ('const', '1'))
+    dropped = ('sub', ('attr', S, 'operands'), idx)
+    pos_ok = kinds[0] == need
+    guard_ok = _cancel_guard(alts, dropped, O)
+    what = 'other @ self' if reflected else 'self @ other'
+    ck.expect('S5', pos_ok and guard_ok, fn,
+              f'{what}: the operand next to `other` is dropped together with it under the guard that one is the lazy inverse of the very same other',
+              f'{cls.name}.{name} builds {what} leaving out {show(dropped)}' + ('' if pos_ok else f', which stands at the far end of the chain (the operand next to `other` is '
+              f'self.operands[{"0" if reflected else "-1"}])') + ('' if guard_ok else '; no guard `X.operator is Y` relates the dropped operand and `other` on every way to reach this return')
+              + ': the product changes', instance=f'{name} cancellation' + (' (single operand left)' if single else ''))
 
 
 def _scalar_form(t, o):
